@@ -2097,6 +2097,34 @@ def _from_lengths(f, var):
     return False
 
 
+def h68_input_normalised_in_one_width_branch(ctx, tk, rule, funcs):
+    """if self._dtype == np.int32: <idx = f(idx)> ... else: ...   A caller's argument rebound in only ONE arm of a branch on the
+    configured index width makes what is accepted (mask lengths, ranges, shapes) depend on the configuration"""
+    for f in funcs:
+        params = set(f.params[1:] if f.cls is not None else f.params)
+        if not params:
+            continue
+        for st in ast.walk(f.node):
+            if not (isinstance(st, ast.If) and any(isinstance(y, ast.Attribute) and y.attr == "_dtype" for y in ast.walk(st.test))):
+                continue
+
+            def rebound(body):
+                out = {}
+                for b in body:
+                    for y in ast.walk(b):
+                        tgs = y.targets if isinstance(y, ast.Assign) else ([y.target] if isinstance(y, (ast.AugAssign, ast.AnnAssign)) else [])
+                        for t in tgs:
+                            if isinstance(t, ast.Name) and t.id in params:
+                                out.setdefault(t.id, y)
+                return out
+            a, b = rebound(st.body), rebound(st.orelse)
+            for name in sorted(set(a) ^ set(b)):
+                y = a.get(name) or b.get(name)
+                ctx.violated(rule, f, "both index-width branches treat the caller's argument alike",
+                             "`%s` rebinds the argument `%s` in one arm of `if %s` only: what the function accepts then depends on the configured index width" % (
+                                 ast.unparse(y)[:80], name, ast.unparse(st.test)[:50]), node=y, engine="KB")
+
+
 def generic(ctx, tk, rule, funcs, skip=()):
     """all deviance-form hazard rules over a property's function scope"""
     fs = [f for f in funcs if f.qual not in skip]
@@ -2162,6 +2190,7 @@ def generic(ctx, tk, rule, funcs, skip=()):
     h65_selector_cast_to_index_dtype(ctx, tk, rule + "/H65", fs)
     h66_key_dtype_as_value_dtype(ctx, tk, rule + "/H66", fs)
     h67_reshape_inferred_dimension(ctx, tk, rule + "/H67", fs)
+    h68_input_normalised_in_one_width_branch(ctx, tk, rule + "/H68", fs)
     from . import wellformed as _W
     _W.report_constant_truth(ctx, tk, rule, fs)
     # H19 (raw ufunc identity stored) depends on which ufunc the caller chose: it is applied by C05 only, where the
